@@ -617,33 +617,65 @@ func Harness_C18abort(n int) {
 }
 ''')
         s.append('''
+// C18 (options of another call): the middle call sets every runtime option to
+// its non-default value; the third call, made with default options like the
+// first, must return what the first returned (nothing a call was configured with
+// may reach a later call, e.g. through recycled parser objects).
+func Harness_C18opts(n int) {
+	inA := symInputNamed("a", n, true)
+	inB := symInputNamed("b", n, true)
+	symMonitor("ownership-lifo")
+	alone := runReal(inB)
+	OTHERCALL
+	again := runReal(inB)
+	symNote(outcomeNote(alone) + "/" + outcomeNote(other))
+	symAssert(!alone.panicked && !again.panicked, "C18: Parse panicked")
+	symAssert(symEqual(alone.v, again.v), "C18: the value of a Parse with default options depends on the options of an earlier Parse")
+	symAssert(sameStrings(errStrings(alone.err), errStrings(again.err)), "C18: the errors of a Parse with default options depend on the options of an earlier Parse")
+	symAssert(symEqual(alone.tr, again.tr), "C18: the code blocks of a Parse with default options saw different contexts after a Parse with other options")
+	symReach("end")
+}
+'''.replace("OTHERCALL", "other := runReal(inA, AllowInvalidUTF8(true), Recover(false), MaxExpressions(1<<20))" if g.get("_optimized") else
+           "var stO Stats\n\tother := runReal(inA, AllowInvalidUTF8(true), Recover(false), MaxExpressions(1<<20), Memoize(true), Debug(true), Statistics(&stO, \"no match\"))"))
+        s.append('''
 // Native confirmation of an ownership-discipline violation (run under the
 // race detector, never by the engine): 8 goroutines x 200 Parse calls on the
 // two inputs of the model; every result must equal the stand-alone result.
 func Harness_C18native(n int) {
 	inA := symInputNamed("a", n, true)
 	inB := symInputNamed("b", n, true)
-	aloneA := runReal(inA)
-	aloneB := runReal(inB)
+	// the concurrent calls come first: whatever a generated parser builds lazily on first use is then built
+	// by several goroutines at once; the stand-alone results are computed afterwards
 	var wg sync.WaitGroup
-	var bad int32
+	results := make([][]outcome, 8)
 	for g := 0; g < 8; g++ {
 		wg.Add(1)
 		go func(g int) {
 			defer wg.Done()
 			for i := 0; i < 200; i++ {
-				in, want := inA, aloneA
+				in := inA
 				if (g+i)%%2 == 1 {
-					in, want = inB, aloneB
+					in = inB
 				}
-				o := runReal(in)
-				if !symEqual(o.v, want.v) || !sameStrings(errStrings(o.err), errStrings(want.err)) || !symEqual(o.tr, want.tr) {
-					atomic.AddInt32(&bad, 1)
-				}
+				results[g] = append(results[g], runReal(in))
 			}
 		}(g)
 	}
 	wg.Wait()
+	aloneA := runReal(inA)
+	aloneB := runReal(inB)
+	var bad int32
+	for g := 0; g < 8; g++ {
+		for i, o := range results[g] {
+			want := aloneA
+			if (g+i)%%2 == 1 {
+				want = aloneB
+			}
+			if !symEqual(o.v, want.v) || !sameStrings(errStrings(o.err), errStrings(want.err)) || !symEqual(o.tr, want.tr) {
+				atomic.AddInt32(&bad, 1)
+			}
+		}
+	}
 	symAssert(bad == 0, "C18: concurrent Parse calls returned results different from the stand-alone results")
 	symReach("end")
 }
